@@ -1471,7 +1471,19 @@ fn gen_raw(rng: &mut Rng, p: &P) -> Vec<u8> {
                 let v = rng.boundary_u64();
                 uleb(&mut out, v);
             }
-            8 => out.extend(rng.bytes_below(4)),
+            8 => {
+                // extended opcode frames with lengths that do not match the operand: padding after
+                // the operand, operands cut short, zero length, length beyond the input
+                let sub = *rng.pick(&[1u8, 2, 2, 3, 4, 5, 0x80, 0]);
+                let len = rng.below(14);
+                out.push(0);
+                uleb(&mut out, if rng.chance(1, 12) { rng.boundary_u64() } else { len });
+                if len > 0 {
+                    out.push(sub);
+                    let body = rng.bytes(len as usize - 1);
+                    out.extend(body);
+                }
+            }
             _ => out.push(*rng.pick(&[1u8, 8, 8, 255, 254, 13, 12, 6])),
         }
     }
